@@ -13,7 +13,7 @@ Directives (one per line, payload = following non-directive lines):
   //@item <kind> <name> [pubfields]       emit a whole item (struct/enum/const/type/fn/impl header text for impl)
   //@impl <normalized impl header>[ #n]   open an impl block; assoc types/consts are emitted automatically
   //@fn <name> [-> <ret>] [#n]            emit a fn (member of the open impl, or a free fn of the file)
-  //@rw <rule> <count> `from` => `to`     rewrite inside the current fn/item (exactly <count> matches)
+  //@rw <rule> <count> `from` => `to`     rewrite inside the current fn/item (exactly <count> matches; `*` = every match, at least one)
   //@attr                                 payload placed before the fn (e.g. #[verifier::external_body])
   //@sig                                  payload placed after the signature (requires/ensures/decreases)
   //@loop <n>                             payload placed after the header of the n-th loop of the fn
@@ -218,7 +218,10 @@ class Extractor:
             if h > last:
                 sel.append(h)
                 last = h + len(pt) - 1
-        if count is not None and len(sel) != count:
+        if count == -1:
+            if not sel:
+                raise ExtractError("lost-anchor", f"rewrite {rule} `{frm}` expected at least one match ({where})")
+        elif count is not None and len(sel) != count:
             raise ExtractError("lost-anchor", f"rewrite {rule} `{frm}` expected {count} matches, found {len(sel)} ({where})")
         for h in sel:
             s = sf.toks[h].start
@@ -435,7 +438,7 @@ class Extractor:
             elif cmd == "rw":
                 parts, rest = parse_backticks(arg)
                 r = rest.split()
-                rule, count = r[0], int(r[1])
+                rule, count = r[0], (-1 if r[1] == "*" else int(r[1]))
                 if cur_fn is None:
                     if self.impl and not self.impl_open_emitted:
                         it = self.impl["item"]
